@@ -61,6 +61,7 @@ struct vs_slot {
 struct vs_options {
     int unlock_points;           /* scheduling point after every mutex unlock (needed only for racy code) */
     int horizon;                 /* max scheduling steps per execution */
+    int spurious;                /* how many spurious condition-variable wake-ups may be generated per execution (each costs 1 deviation) */
     const uint8_t *prefix; int prefix_len;          /* choices to replay */
     const uint8_t *exp_nalt; const uint32_t *exp_sig; int exp_len; /* expected shape of the replayed part (may be NULL) */
     uint64_t *state_table; uint64_t state_mask;      /* shared fingerprint set (counting only) */
